@@ -45,34 +45,51 @@ SIZE_CLASSES = {
 
 
 class _Tree:
-    """per dimension: lattice index -> level (inner points only), lattice 2^L"""
+    """per dimension: lattice index -> level (inner points only), lattice 2^L; `cands` restricts the positions that may be used
+    (fine lattices: a coarse sub-lattice plus a window of consecutive fine positions)"""
 
-    def __init__(self, L, pts):
+    def __init__(self, L, pts, cands=None):
         self.L = L
         self.n = 2 ** L
         self.pts = dict(pts)
+        self.cands = cands
 
     def stripe(self, maxlevel):
         idx = [0] + sorted(i for i, l in self.pts.items() if l <= maxlevel) + [self.n]
         return [i / self.n for i in idx], [0] + [self.pts[i] for i in idx[1:-1]] + [0]
 
     def free(self):
-        return [i for i in range(1, self.n) if i not in self.pts]
+        pool = self.cands if self.cands is not None else range(1, self.n)
+        return [i for i in pool if i not in self.pts]
 
 
-def _gen_tree(rng, k, K):
+def _gen_tree(rng, k, K, fine=False):
     L = 5
     while 2 ** L - 1 < 2 * k + 2:
         L += 1
     L = max(L, rng.choice([5, 6]))
-    idx = rng.sample(range(1, 2 ** L), k)
+    cands = None
+    if fine:
+        # axis d (magnitudes): grid spacings down to 2^-34 - a window of consecutive positions of a very fine lattice next to a
+        # coarse lattice point, plus points of the coarse lattice
+        Lf = rng.choice([26, 30, 34])
+        w = 2 ** (Lf - L)
+        coarse = [i * w for i in range(1, 2 ** L)]
+        base = rng.randrange(1, 2 ** L - 1) * w
+        win = list(range(base + 1, base + 4 * k + 9))
+        cands = sorted(set(coarse + win))
+        idx = rng.sample(win, min(len(win), max(2, (2 * k) // 3)))
+        idx += rng.sample(coarse, max(1, k - len(idx)))
+        L = Lf
+    else:
+        idx = rng.sample(range(1, 2 ** L), k)
     pts = {}
     for n, i in enumerate(idx):
         if n == 0 or K == 1:
             pts[i] = 1
         else:
             pts[i] = K if rng.random() < 0.3 else rng.randrange(1, K + 1)
-    return _Tree(L, pts)
+    return _Tree(L, pts, cands)
 
 
 def _scheme(rng, Ks):
@@ -92,7 +109,7 @@ def _scheme(rng, Ks):
     return [list(s) for s in sch]
 
 
-def gen_ophist(rng, size=None, M=None, npoints=None):
+def gen_ophist(rng, size=None, M=None, npoints=None, fine=None):
     dim = rng.choice([1, 2, 2, 2, 3])
     size = size or rng.choice(['small', 'below', 'edge199', 'edge200', 'edge201', 'above', 'above', 'above', 'big'])
     lo, hi = SIZE_CLASSES[size]
@@ -106,24 +123,47 @@ def gen_ophist(rng, size=None, M=None, npoints=None):
     Ks = [rng.choice([1, 2, 2, 3]) for _ in range(dim)]
     if size == 'huge':
         Ks = [1] * dim
-    trees = [_gen_tree(rng, ks[d], Ks[d]) for d in range(dim)]
+    fine = fine if fine is not None else (size != 'huge' and rng.random() < 0.18)
+    dfine = rng.randrange(dim) if fine else None
+    trees = [_gen_tree(rng, ks[d], Ks[d], fine=(d == dfine)) for d in range(dim)]
     scheme = _scheme(rng, Ks)
     fin0 = [trees[d].stripe(Ks[d])[0] for d in range(dim)]
     M = M or rng.choice([1, 3, 10, 25, 60])
     data = _de.gen_data(rng, dim, M, fin0, k=7)
-    rescale = rng.random() < 0.1
+
+    def in_window(x):
+        # a coordinate on or between the positions of the fine window (exact in binary64: at most 37 bits)
+        t = trees[dfine]
+        win = [i for i in t.cands if i % (2 ** (t.L - 5)) != 0]
+        return (rng.choice(win) + rng.choice([0, 0.5, 0.25, -0.5])) / t.n
+    if fine:
+        for x in data:
+            if rng.random() < 0.4:
+                x[dfine] = in_window(x)
+    if rng.random() < 0.2 and M >= 3:     # axis i: ties - repeated samples (np.argsort breaks the ties arbitrarily)
+        for n in range(M):
+            if rng.random() < 0.3:
+                data[n] = list(data[rng.randrange(M)])
+    rescale = (not fine) and rng.random() < 0.1
     if rescale:                       # samples outside the unit cube: initialize() min-max scales them (unless pre_scaled_data)
         data = [[3 * v - 1 for v in x] for x in data]
         data[0] = [-1.0] * dim
         if M > 1:
             data[1] = [2.0] * dim
     lab = rng.random() < 0.4
-    labels = rng.choice([[-1, 1]] * 8 + [[-1, 2], [0, 1]])
+    labels = rng.choice([[-1, 1]] * 7 + [[-1, 2], [0, 1], [-3, 5]])
     points = [list(x) for x in data[:3]] + _de.eval_points(rng, dim, fin0, 6)
     if rescale:
         points = _de.eval_points(rng, dim, fin0, 9)
+    if fine:
+        for x in points[3:]:
+            if rng.random() < 0.6:
+                x[dfine] = in_window(x)
     if npoints:
         points += _de.eval_points(rng, dim, fin0, npoints - len(points))
+    # axis i: level values beyond 1,2,3 (keys of old_B are str(max levels), keys of the surplus dictionary are level vectors)
+    lvmap = rng.choice([lambda k: k] * 3 + [lambda k: 2 * k + 1, lambda k: 10 * k, lambda k: 3 if k == 1 else 7 * k])
+    lam0 = rng.choice([0.0, 0.01, 0.125, 0.125, 2.0 ** -20, 64.0])
     nsteps = rng.choice([2, 3, 3, 4]) if size != 'huge' else 2
     steps = []
     surplus_seed = rng.randrange(1 << 30)
@@ -132,7 +172,7 @@ def gen_ophist(rng, size=None, M=None, npoints=None):
         ops = []
         if s > 0:
             for _ in range(rng.choice([1, 1, 2])):
-                d = rng.randrange(dim)
+                d = rng.randrange(dim) if not (fine and rng.random() < 0.6) else dfine
                 t = trees[d]
                 op = rng.choice(['refine', 'refine', 'refine', 'replace', 'replace', 'repeat', 'remove', 'rekey'])
                 if size == 'huge' and op in ('rekey',):
@@ -151,7 +191,8 @@ def gen_ophist(rng, size=None, M=None, npoints=None):
                 elif op == 'replace':
                     srt = [0] + sorted(t.pts) + [t.n]
                     j = rng.randrange(1, len(srt) - 1)
-                    cand = [v for v in range(srt[j - 1] + 1, srt[j + 1]) if v != srt[j]]
+                    pool_ = t.cands if t.cands is not None else range(srt[j - 1] + 1, srt[j + 1])
+                    cand = [v for v in pool_ if srt[j - 1] < v < srt[j + 1] and v != srt[j]]
                     if cand:
                         lv = t.pts.pop(srt[j])
                         t.pts[rng.choice(cand)] = lv
@@ -176,16 +217,21 @@ def gen_ophist(rng, size=None, M=None, npoints=None):
                 N *= len(st) - 2
             if N > (520 if size != 'huge' else 1400):
                 continue
-            grids.append(dict(lv=list(lv), stripes=[st for st, _ in sl], levels=[l for _, l in sl],
-                              solve=bool(solve_case and N <= 230), seed=surplus_seed + 7 * s + sum(lv)))
+            grids.append(dict(lv=[lvmap(k) for k in lv], stripes=[st for st, _ in sl],
+                              levels=[[lvmap(k) if k else 0 for k in l] for _, l in sl],
+                              solve=bool(solve_case and N <= 230 and not fine), seed=surplus_seed + 7 * s + sum(lv)))
         if not grids:
             continue
         fin = [trees[d].stripe(Ks[d])[0] for d in range(dim)]
         steps.append(dict(ops=ops, grids=grids, order=rng.choice(['interp-first', 'post-first', 'post-first']),
                           points2=_de.eval_points(rng, dim, fin, 4) if rng.random() < 0.6 else None,
-                          twice=rng.random() < 0.3))
+                          twice=rng.random() < 0.3, post_again=rng.random() < 0.3,
+                          lam=rng.choice([0.0, 0.01, 0.5, 2.0 ** -20, 64.0]) if (s > 0 and rng.random() < 0.3) else None))
+    args = dict(share=rng.random() < 0.6, layout=rng.choice(['C', 'C', 'F', 'view']), points_as=rng.choice(['tuples', 'ndarray']),
+                scribble=rng.random() < 0.5, sentinel=rng.random() < 0.5)
     return dict(kind='op-history', dim=dim, size=size, data=data, classes=[rng.choice(labels) for _ in range(M)] if lab else None,
-                lam=rng.choice([0.0, 0.01, 0.125]), debug=rng.random() < 0.08, decoy=rng.random() < 0.5,
+                lam=lam0, debug=rng.random() < 0.08, decoy=rng.random() < 0.5, args=args, observers=rng.random() < 0.4,
+                fine=bool(fine), ascale=rng.choice([0, 0, 0, -40, 30]),
                 ml=solve_case and rng.random() < 0.2, rescale=rescale, pre_scaled=(not rescale) and rng.random() < 0.1,
                 points=points, steps=steps)
 
@@ -231,14 +277,14 @@ def gen_steps(rng, family='large', shape=None):
     lab = rng.random() < 0.4
     if lab and rng.random() < (0.25 if large else 0.5):
         est = 'misclassification'
-        nsteps = min(nsteps, 2 if large else 4)
+        nsteps = min(nsteps, 2 if (large or shape == '2d-24s') else 3)      # the misclassification estimator refines many intervals per step
     else:
         est = ['scripted', rng.randrange(1 << 30), rng.choice([0.0, 0.15, 0.4])]
     pts = [list(x) for x in data[2:5]] + [[rng.randrange(0, 65) / 64 for _ in range(dim)] for _ in range(7)]
     stops = []
     for s in range(nsteps + 1):
         stops.append(dict(interp=rng.random() < (0.9 if large else 0.7), reeval=rng.random() < (0.1 if large else 0.2),
-                          again=rng.random() < 0.25,
+                          again=rng.random() < 0.25, post_again=rng.random() < 0.25,
                           points2=[[rng.randrange(0, 129) / 128 for _ in range(dim)] for _ in range(3)] if rng.random() < 0.4 else None))
     stops[-1]['interp'] = True
     stops[-2]['interp'] = True
@@ -247,8 +293,10 @@ def gen_steps(rng, family='large', shape=None):
                 lam=rng.choice([0.02, 0.0625, 0.01]), margin=margin, rebalancing=rng.random() < 0.7,
                 boundary=(not large) and rng.random() < 0.15, debug=(not large) and rng.random() < 0.2,
                 ml=rng.random() < (0.05 if large else 0.15),
-                second_run=(not large) and rng.random() < 0.25,
-                points=pts, stops=stops)
+                second_run=(not large) and est != 'misclassification' and rng.random() < 0.3,
+                args=dict(share=rng.random() < 0.6, layout=rng.choice(['C', 'C', 'F', 'view']),
+                          points_as=rng.choice(['tuples', 'ndarray']), sentinel=rng.random() < 0.5),
+                observers=rng.random() < 0.4, points=pts, stops=stops)
 
 
 def gen_std(rng):
@@ -293,47 +341,142 @@ def _logging_de():
     return LoggingDE
 
 
-def _mk_op(cls, dim, data, classes, lam, reuse, boundary=False, ml=False, debug=False, pre_scaled=False):
+def _mk_op(cls, dim, data, classes, lam, reuse, boundary=False, ml=False, debug=False, pre_scaled=False, raw=False):
+    """raw: data / classes are handed over as the objects they are (argument-object axes); else fresh float arrays"""
     import numpy as np
     from sparseSpACE.Grid import GlobalTrapezoidalGrid
     from sparseSpACE.Utils import print_levels, log_levels
     grid = GlobalTrapezoidalGrid(a=np.zeros(dim), b=np.ones(dim), modified_basis=False, boundary=boundary)
-    op = cls(np.array(data, dtype=float), dim, grid=grid, lambd=lam, classes=np.array(classes) if classes is not None else None,
+    op = cls(data if raw else np.array(data, dtype=float), dim, grid=grid, lambd=lam,
+             classes=(classes if raw else np.array(classes)) if classes is not None else None,
              reuse_old_values=reuse, masslumping=ml, debug=debug, pre_scaled_data=pre_scaled, print_level=print_levels.ERROR,
              log_level=log_levels.ERROR)
     op.b_log, op.key_log, op.solve_log = [], [], []
     return op
 
 
+SENTINEL = 12345.678
+
+
+def _snap(o):
+    import copy
+    import numpy as np
+    if isinstance(o, np.ndarray):
+        return (o.copy(), o.dtype, o.shape)
+    return copy.deepcopy(o)
+
+
+def _same(o, s):
+    import numpy as np
+    if isinstance(o, np.ndarray):
+        return o.dtype == s[1] and o.shape == s[2] and bool(np.array_equal(o, s[0]))
+    return o == s
+
+
+class _Args:
+    """argument objects handed to the library, with the snapshot taken at hand-over (axis a: argument immutability)"""
+    def __init__(self):
+        self.items = []
+
+    def add(self, name, obj):
+        self.items.append((name, obj, _snap(obj)))
+        return obj
+
+    def mutated(self):
+        return [name for name, obj, snap in self.items if not _same(obj, snap)]
+
+
+def _array_as(values, layout):
+    """a float64 array with the given memory layout: C, F, or a strided view into a larger parent array (axis b)"""
+    import numpy as np
+    a = np.array(values, dtype=float)
+    if a.ndim == 1:
+        if layout == 'view':
+            parent = np.full(2 * len(a) + 1, -7.0)
+            parent[1::2] = a
+            return parent[1::2]
+        return a
+    if layout == 'F':
+        return np.asfortranarray(a)
+    if layout == 'view':
+        parent = np.full((a.shape[0] + 2, 2 * a.shape[1] + 1), -7.0)
+        parent[1:-1, 1::2] = a
+        return parent[1:-1, 1::2]
+    return a
+
+
+def _contains_sentinel(op):
+    """internal state that must never contain a value the caller wrote into a RETURNED object (axis c)"""
+    import numpy as np
+    hits = []
+    for nm in ('old_B', 'new_B', 'surpluses', 'old_R'):
+        d = getattr(op, nm, {})
+        for k, v in d.items():
+            if np.any(np.asarray(v, dtype=float) == SENTINEL):
+                hits.append(nm)
+                break
+    return hits
+
+
+def _fingerprint(op):
+    return repr((sorted((k, [float(x) for x in v]) for k, v in op.old_B.items()),
+                 sorted((k, [float(x) for x in v]) for k, v in op.new_B.items()),
+                 sorted((str(k), [float(x) for x in v]) for k, v in op.surpluses.items()),
+                 sorted(op.old_grid_coord.keys()), len(op.old_R), [sorted(b.items()) for b in op.data_bins],
+                 float(op.lambd), [int(x) for x in op.grid.numPoints]))
+
+
 def impl_ophist(case):
     import numpy as np
     from sparseSpACE.ComponentGridInfo import ComponentGridInfo
+    from sparseSpACE.GridOperation import DensityEstimation
     cls = _logging_de()
     dim = case['dim']
+    ar = case.get('args') or {}
+    args = _Args()
     objs = {}
     order = ['off', 'on']
     if case.get('decoy'):
         order = ['decoy', 'on', 'off']
+    layout = ar.get('layout', 'C')
+    shared_data = args.add('data', _array_as(case['data'], layout))
+    shared_classes = args.add('classes', _array_as(case['classes'], layout)) if case['classes'] is not None else None
+
+    def mk(reuse, lam):
+        # axis b: ONE data / label array object for every operation object of the case, or equal arrays of the same layout
+        d = shared_data if ar.get('share') else args.add('data-copy', _array_as(case['data'], layout))
+        c = None
+        if case['classes'] is not None:
+            c = shared_classes if ar.get('share') else args.add('classes-copy', _array_as(case['classes'], layout))
+        op = _mk_op(cls, dim, d, c, lam, reuse, debug=bool(case.get('debug')), ml=bool(case.get('ml')),
+                    pre_scaled=bool(case.get('pre_scaled')), raw=True)
+        op.init_dimension_wise(op.grid, None, _de._RC(), [1] * dim, [6] * dim, np.zeros(dim), np.ones(dim))
+        op.initialize_evaluation_dimension_wise(_de._RC())
+        return op
     for name in order:
         if name == 'decoy':
             r = _random.Random(len(case['data']))
             data = [[r.randrange(0, 65) / 64 for _ in range(dim)] for _ in range(len(case['data']) + 3)]
             data[0] = [0.0] * dim; data[1] = [1.0] * dim
             op = _mk_op(cls, dim, data, None, 0.5, True)
+            op.init_dimension_wise(op.grid, None, _de._RC(), [1] * dim, [6] * dim, np.zeros(dim), np.ones(dim))
+            op.initialize_evaluation_dimension_wise(_de._RC())
         else:
-            op = _mk_op(cls, dim, case['data'], case['classes'], case['lam'], name == 'on', debug=bool(case.get('debug')),
-                        ml=bool(case.get('ml')), pre_scaled=bool(case.get('pre_scaled')))
-        op.init_dimension_wise(op.grid, None, _de._RC(), [1] * dim, [6] * dim, np.zeros(dim), np.ones(dim))
-        op.initialize_evaluation_dimension_wise(_de._RC())
+            op = mk(name == 'on', case['lam'])
         objs[name] = op
     out = {n: [] for n in objs}
     out['data'] = _de.tolist(objs['on'].data)
-    P = [tuple(p) for p in case['points']]
-    for step in case['steps']:
+    # evaluation points: one object for every call of the history (list of tuples or ndarray)
+    if ar.get('points_as') == 'ndarray':
+        P = args.add('points', _array_as(case['points'], layout))
+    else:
+        P = args.add('points', [tuple(p) for p in case['points']])
+    ctx = dict(args=args, mk=mk, P=P)
+    for sn, step in enumerate(case['steps']):
         for name in order:                       # the objects are driven in turn, step by step, in one process
             op = objs[name]
             try:
-                _ophist_step(case, step, name, op, order, out, P)
+                _ophist_step(case, step, name, op, order, out, ctx)
             except Exception as e:
                 import traceback
                 tb = traceback.extract_tb(e.__traceback__)
@@ -342,6 +485,9 @@ def impl_ophist(case):
                                  step=len(out[name]) if isinstance(out[name], list) else None)
                 out.pop('decoy', None)
                 return out
+        bad = args.mutated()
+        if bad and 'mutated' not in out:
+            out['mutated'] = dict(step=sn, what=bad)
     on = objs['on']
     bins = []
     for d in range(dim):
@@ -353,59 +499,109 @@ def impl_ophist(case):
     return out
 
 
-def _ophist_step(case, step, name, op, order, out, P):
+def _ophist_step(case, step, name, op, order, out, ctx):
     import numpy as np
     from sparseSpACE.ComponentGridInfo import ComponentGridInfo
-    if True:
-        if True:
-            rec = dict(grids=[], interp=[], interp2=[], interp_again=[])
-            for g in step['grids']:
-                stripes = [list(s) for s in g['stripes']]
-                levels = [list(l) for l in g['levels']]
-                lv = tuple(g['lv'])
-                op.grid.set_grid(stripes, levels)
-                N = int(op.grid.get_num_points())
-                gr = dict(N=N)
-                nb = len(op.b_log)
-                if g['solve'] and name != 'decoy':
-                    alphas = op.solve_density_estimation_dimension_wise(stripes, levels, ComponentGridInfo(lv, 1))
-                    gr['alphas'] = _de.tolist(alphas)
-                    gr['b'] = op.b_log[nb][1] if len(op.b_log) > nb else None      # None: the solve did not compute a right-hand side
-                    if name == 'off':
-                        # history-free reference: the same solve on a brand-new object
-                        fresh = _mk_op(type(op), case['dim'], case['data'], case['classes'], case['lam'], False,
-                                       ml=bool(case.get('ml')), pre_scaled=bool(case.get('pre_scaled')))
-                        fresh.init_dimension_wise(fresh.grid, None, _de._RC(), [1] * case['dim'], [6] * case['dim'],
-                                                  np.zeros(case['dim']), np.ones(case['dim']))
-                        fresh.initialize_evaluation_dimension_wise(_de._RC())
-                        fresh.grid.set_grid(stripes, levels)
-                        gr['alphas_fresh'] = _de.tolist(fresh.solve_density_estimation_dimension_wise(
-                            stripes, levels, ComponentGridInfo(lv, 1)))
-                else:
-                    gr['b'] = _de.tolist(op.calculate_B_dimension_wise(op.data, stripes, levels))
-                    alphas = np.array(_surpluses(g['seed'], N))
-                op.surpluses[lv] = alphas
-                rec['grids'].append(gr)
-            rec['numpts'] = int(op.grid.get_num_points())
+    from sparseSpACE.GridOperation import DensityEstimation
+    ar = case.get('args') or {}
+    args, P = ctx['args'], ctx['P']
+    scale = 2.0 ** case.get('ascale', 0)
+    if step.get('lam') is not None and name != 'decoy':
+        op.lambd = step['lam']                   # axis f: the regularisation parameter changes between the steps of one object
+    lam_now = float(op.lambd)
+    rec = dict(grids=[], interp=[], interp2=[], interp_again=[], lam=lam_now)
 
-            def interp(points):
-                return [_de.tolist(np.asarray(op.interpolate_points_component_grid(
-                    ComponentGridInfo(tuple(g['lv']), 1), [list(s) for s in g['stripes']], points)).reshape(-1)) for g in step['grids']]
-            if step['order'] == 'interp-first':
-                rec['interp'] = interp(P)
-                op.post_processing()
-            else:
-                op.post_processing()
-                rec['interp'] = interp(P)
-            if step.get('points2'):
-                rec['interp2'] = interp([tuple(p) for p in step['points2']])
-            if step.get('twice'):
-                rec['interp_again'] = interp(P)
-            if name == 'on':
-                rec['old_keys'] = sorted(op.old_B.keys())
-                rec['chosen'] = list(op.key_log)
-                op.key_log = []
-            out[name].append(rec)
+    def scribble(lst):
+        # the caller re-uses its own argument lists after the call: the library must have taken copies
+        for row in lst:
+            for i in range(len(row)):
+                row[i] = -SENTINEL if isinstance(row[i], float) else 77
+
+    def overwrite(res):
+        # the caller writes into what a call returned (axis c)
+        if ar.get('sentinel') and isinstance(res, np.ndarray) and res.flags.writeable:
+            res[...] = SENTINEL
+    for g in step['grids']:
+        stripes = [list(s) for s in g['stripes']]
+        levels = [list(l) for l in g['levels']]
+        s_stripes, s_levels = _snap(stripes), _snap(levels)
+        lv = tuple(g['lv'])
+        op.grid.set_grid(stripes, levels)
+        N = int(op.grid.get_num_points())
+        gr = dict(N=N)
+        nb = len(op.b_log)
+        if g['solve'] and name != 'decoy':
+            alphas = op.solve_density_estimation_dimension_wise(stripes, levels, ComponentGridInfo(lv, 1))
+            gr['alphas'] = _de.tolist(alphas)
+            gr['b'] = op.b_log[nb][1] if len(op.b_log) > nb else None      # None: the solve did not compute a right-hand side
+            if name == 'off':
+                # history-free reference: the same solve on a brand-new object
+                fresh = ctx['mk'](False, lam_now)
+                fresh.grid.set_grid([list(s) for s in g['stripes']], [list(l) for l in g['levels']])
+                gr['alphas_fresh'] = _de.tolist(fresh.solve_density_estimation_dimension_wise(
+                    [list(s) for s in g['stripes']], [list(l) for l in g['levels']], ComponentGridInfo(lv, 1)))
+            op.surpluses[lv] = np.array(alphas)
+            overwrite(alphas)
+        else:
+            b = op.calculate_B_dimension_wise(op.data, stripes, levels)
+            gr['b'] = _de.tolist(b)
+            overwrite(b)
+            op.surpluses[lv] = np.array(_surpluses(g['seed'], N)) * scale
+        if not (_same(stripes, s_stripes) and _same(levels, s_levels)) and 'mutated' not in out:
+            out['mutated'] = dict(step=len(out[name]), what=['stripes/levels'], obj=name)
+        if ar.get('scribble'):
+            scribble(stripes); scribble(levels)
+        rec['grids'].append(gr)
+    rec['numpts'] = int(op.grid.get_num_points())
+
+    def interp(points):
+        res = []
+        for g in step['grids']:
+            mesh = [list(s) for s in g['stripes']]
+            s_mesh = _snap(mesh)
+            v = op.interpolate_points_component_grid(ComponentGridInfo(tuple(g['lv']), 1), mesh, points)
+            res.append(_de.tolist(np.asarray(v).reshape(-1)))
+            overwrite(v)
+            if not _same(mesh, s_mesh) and 'mutated' not in out:
+                out['mutated'] = dict(step=len(out[name]), what=['mesh_points_grid'], obj=name)
+            if ar.get('scribble'):
+                scribble(mesh)
+        return res
+    if step['order'] == 'interp-first':
+        rec['interp'] = interp(P)
+        op.post_processing()
+    else:
+        op.post_processing()
+        rec['interp'] = interp(P)
+    if step.get('points2'):
+        rec['interp2'] = interp([tuple(p) for p in step['points2']])
+    if step.get('twice'):
+        rec['interp_again'] = interp(P)
+    if case.get('observers') and name != 'decoy':
+        # axis e: public calls on the live object between the steps; the pure ones must leave the state untouched
+        fp = _fingerprint(op)
+        g = step['grids'][-1]
+        op.get_result()
+        op.grid.get_num_points()
+        op.grid.get_points_and_weights()
+        op.get_hat_domain_for_every_grid_point_vectorized([list(s) for s in g['stripes']])
+        op.get_neighbors_optimized(tuple(0.5 for _ in g['stripes']), [list(s) for s in g['stripes']])
+        DensityEstimation.find_closest_old_B(op, [list(s) for s in g['stripes']])
+        op.get_hat_domain(tuple(s[1] for s in g['stripes']), [list(s) for s in g['stripes']])
+        op.interpolate_points_component_grid(ComponentGridInfo(tuple(g['lv']), 1), [list(s) for s in g['stripes']], [P[0]] if len(P) else [])
+        if _fingerprint(op) != fp and 'observer_changed_state' not in out:
+            out['observer_changed_state'] = dict(step=len(out[name]), obj=name)
+        if step.get('post_again'):
+            op.post_processing()                 # public as well; empties old_B (no re-use in the next step): later results as without
+    if ar.get('sentinel') and name != 'decoy':
+        hits = _contains_sentinel(op)
+        if hits and 'aliased' not in out:
+            out['aliased'] = dict(step=len(out[name]), where=hits, obj=name)
+    if name == 'on':
+        rec['old_keys'] = sorted(op.old_B.keys())
+        rec['chosen'] = list(op.key_log)
+        op.key_log = []
+    out[name].append(rec)
 
 
 def _scripted(seed, pzero):
@@ -429,12 +625,24 @@ def impl_steps(case):
     from sparseSpACE.spatiallyAdaptiveSingleDimension2 import SpatiallyAdaptiveSingleDimensions2
     cls = _logging_de()
     dim = case['dim']
+    ar = case.get('args') or {}
+    layout = ar.get('layout', 'C')
+    args = _Args()
     out = {}
-    P = [tuple(p) for p in case['points']]
+    shared_data = args.add('data', _array_as(case['data'], layout))
+    shared_classes = args.add('classes', _array_as(case['classes'], layout)) if case['classes'] is not None else None
+    if ar.get('points_as') == 'ndarray':
+        P = args.add('points', _array_as(case['points'], layout))
+    else:
+        P = args.add('points', [tuple(p) for p in case['points']])
+    a = args.add('a', np.zeros(dim)); b = args.add('b', np.ones(dim))
     for reuse in (False, True):
-        a = np.zeros(dim); b = np.ones(dim)
-        op = _mk_op(cls, dim, case['data'], case['classes'], case['lam'], reuse, boundary=bool(case.get('boundary')),
-                    ml=bool(case.get('ml')), debug=bool(case.get('debug')))
+        d = shared_data if ar.get('share') else args.add('data-copy', _array_as(case['data'], layout))
+        c = None
+        if case['classes'] is not None:
+            c = shared_classes if ar.get('share') else args.add('classes-copy', _array_as(case['classes'], layout))
+        op = _mk_op(cls, dim, d, c, case['lam'], reuse, boundary=bool(case.get('boundary')),
+                    ml=bool(case.get('ml')), debug=bool(case.get('debug')), raw=True)
         stops = []
         res = dict(status='ok', stops=stops)
         try:
@@ -466,12 +674,35 @@ def impl_steps(case):
                     op.b_log = []
                     st['chosen'] = op.key_log
                     op.key_log = []
+
+                    def density(points):
+                        v = S(points)
+                        r_ = _de.tolist(np.asarray(v).reshape(-1))
+                        if ar.get('sentinel') and isinstance(v, np.ndarray) and v.flags.writeable:
+                            v[...] = SENTINEL            # the caller writes into the returned array
+                        return r_
                     if plan_k.get('interp'):
-                        st['density'] = _de.tolist(np.asarray(S(P)).reshape(-1))
+                        st['density'] = density(P)
                         if plan_k.get('points2'):
-                            st['density2'] = _de.tolist(np.asarray(S([tuple(p) for p in plan_k['points2']])).reshape(-1))
+                            st['density2'] = density([tuple(p) for p in plan_k['points2']])
                         if plan_k.get('again'):
-                            st['density_again'] = _de.tolist(np.asarray(S(P)).reshape(-1))
+                            st['density_again'] = density(P)
+                    if case.get('observers'):
+                        # public calls on the live objects between the refinement steps (axis e)
+                        fp = _fingerprint(op)
+                        op.get_result(); S.get_total_num_points(); op.grid.get_points_and_weights()
+                        S.get_point_coord_for_each_dim(S.scheme[0].levelvector)
+                        if _fingerprint(op) != fp and 'observer_changed_state' not in out:
+                            out['observer_changed_state'] = dict(step=len(stops), obj='on' if reuse else 'off')
+                        if plan_k.get('post_again'):
+                            op.post_processing()
+                    if ar.get('sentinel'):
+                        hits = _contains_sentinel(op)
+                        if hits and 'aliased' not in out:
+                            out['aliased'] = dict(step=len(stops), where=hits, obj='on' if reuse else 'off')
+                    bad = args.mutated()
+                    if bad and 'mutated' not in out:
+                        out['mutated'] = dict(step=len(stops), what=bad, obj='on' if reuse else 'off')
                     stops.append(st)
             res['cache_R'] = len(op.old_R)
         except Exception as e:
@@ -533,7 +764,7 @@ def model_calls_ophist(case, r):
             N = _N(g['stripes'])
             for name in ('on', 'off'):
                 rec = r[name][s]['grids'][gi]
-                al = fr(rec['alphas']) if 'alphas' in rec else fr(_surpluses(g['seed'], N))
+                al = fr(rec['alphas']) if 'alphas' in rec else fr([v * 2.0 ** case.get('ascale', 0) for v in _surpluses(g['seed'], N)])
                 if name == 'off' and 'alphas' not in rec:
                     continue                     # seeded surpluses: one model call serves both settings
                 calls.append(((s, gi, 'interp', name), 8, [st, al, P]))
@@ -551,11 +782,20 @@ def check_ophist(chk, c, r, m):
             chk.violation('oracle:size_paths_agree', 'op-history-exception',
                           dict(path='op-history', exc=e['exc'], fn=e.get('fn'), debug=bool(c.get('debug'))), dict(c, steps=c['steps'][:(e.get('step') or 0) + 1]), dict(e, reuse=name))
             return False
+    for key_, kind_, check_ in (('mutated', 'argument-mutated', 'oracle:arguments_unchanged'),
+                                ('aliased', 'result-aliases-internal-state', 'oracle:results_not_aliased'),
+                                ('observer_changed_state', 'observer-changed-state', 'oracle:observers_pure')):
+        if key_ in r:
+            e = r[key_]
+            chk.violation(check_, kind_, dict(path='op-history', what=','.join(sorted(set(w_.replace('-copy', '') for w_ in (e.get('what') or e.get('where') or ['state']))))),
+                          dict(c, steps=c['steps'][:(e.get('step') or 0) + 1]), e)
+            return False
     if not c.get('rescale') and fr(r['data']) != fr(c['data']):
         chk.violation('corr:C17/data', 'data-rescaled', dict(path='op-history'), c, 'initialize() changed data inside the unit cube')
         return False
     for s, step in enumerate(c['steps']):
         on, off = r['on'][s], r['off'][s]
+        lam = on.get('lam', c['lam'])
         hist = dict(c, steps=c['steps'][:s + 1])
         big = on['numpts'] >= THR
         chk.count('op-step-interp-path=' + ('large' if big else 'small'))
@@ -671,6 +911,14 @@ def check_steps(chk, c, r, m):
                           dict(path='adaptive-steps', on=on.get('exc', 'ok'), off=off.get('exc', 'ok')), c,
                           dict(on={k: on.get(k) for k in ('exc', 'msg', 'where')}, off={k: off.get(k) for k in ('exc', 'msg', 'where')}))
         return False
+    for key_, kind_, check_ in (('mutated', 'argument-mutated', 'oracle:arguments_unchanged'),
+                                ('aliased', 'result-aliases-internal-state', 'oracle:results_not_aliased'),
+                                ('observer_changed_state', 'observer-changed-state', 'oracle:observers_pure')):
+        if key_ in r:
+            e = r[key_]
+            chk.violation(check_, kind_, dict(path='adaptive-steps', what=','.join(sorted(set(w_.replace('-copy', '') for w_ in (e.get('what') or e.get('where') or ['state']))))),
+                          dict(c, stops=c['stops'][:(e.get('step') or 0) + 1]) if (e.get('step') or 0) < len(c['stops']) else c, e)
+            return False
     lam = c['lam']
     scripted = c['estimator'] != 'misclassification'
     ok = True
@@ -781,7 +1029,7 @@ def model17_calls_ophist(case, r):
             continue
         for gi, g in enumerate(step['grids']):
             rec = r['on'][s]['grids'][gi]
-            al = fr(rec['alphas']) if 'alphas' in rec else fr(_surpluses(g['seed'], _N(g['stripes'])))
+            al = fr(rec['alphas']) if 'alphas' in rec else fr([v * 2.0 ** case.get('ascale', 0) for v in _surpluses(g['seed'], _N(g['stripes']))])
             calls.append(((s, gi, 'large'), 3, [fr(g['stripes']), al, P]))
     return calls
 
